@@ -1354,6 +1354,7 @@ class EKF:
         if mag is not None:
             _assert_numerical_iterable(mag, 'Tri-axial magnetometer sample')
         dt = self.Dt if dt is None else dt
+        q = np.array(q, dtype=float)            # Plain array: the sums below are element-wise, also for a given Quaternion object
         if not np.isclose(np.linalg.norm(q), 1.0):
             raise ValueError("A-priori quaternion must have a norm equal to 1.")
         # Current Measurements
